@@ -3,7 +3,7 @@ import json
 import os
 import re
 
-from vlib import BUILD, Check, coq_eval
+from vlib import BUILD, Check, coq_eval, run_impl
 
 PROP = "C03"
 
@@ -61,6 +61,18 @@ def run(tier, seed):
             ck.failure(f"{key}:{x}", what.format(x=x),
                        {"check": key, "subject": x,
                         "how": "python: import orix.quaternion.symmetry as S; compare the dumped group (build/c03_dump.json) with the reference"})
+    # property oracle on the implementation (numpy brute force; run on every check, not cached with the Coq data):
+    # derived-group query chains in both orders, aliases 2 / m, point groups by name, real lattices (constructor,
+    # structure setter, rotated base, CIF), PhaseList / CrystalMap routes, module-level groups unchanged afterwards
+    try:
+        orc = run_impl("c03.py", {"mode": "oracle", "seed": seed, "tier": tier})
+        for f in orc["fails"]:
+            ck.failure(f["sig"], f["what"], f["replay"])
+        for s_, v in orc["strata"].items():
+            ck.cov["strata"]["oracle:" + s_] = v
+            ck.cov["evaluations"] += v
+    except Exception as e:  # noqa
+        ck.broken.append(("oracle", "the property oracle (tools/impl/c03.py, mode oracle) could not be run: " + str(e)[-400:]))
     m = re.search(r'\("@@counts",\s*(\d+)(?:%nat)?,\s*(\d+)', flat)
     ng, ns = (int(m.group(1)), int(m.group(2))) if m else (0, 0)
     dump = os.path.join(BUILD, "c03_dump.json")
